@@ -128,16 +128,14 @@ Proof.
   assert (Hdata : snd (get_data st) = Err e <-> snd (get_shape st) = Err e).
   { unfold get_data. destruct (get_shape st) as [st1 [sh|e1]]; simpl; split; congruence. }
   assert (Haff : forall s, snd (get_affine s) = Err e <-> snd (get_shape s) = Err e).
-  { intros s. unfold get_affine. destruct (get_shape s) as [st1 [sh|e1]]; simpl; [|split; congruence].
-    destruct (1 <? length (files_info st1) / nvols_of_shape sh); simpl; split; congruence. }
+  { intros s. unfold get_affine. destruct (get_shape s) as [st1 [sh|e1]]; simpl; split; congruence. }
   assert (Hnif : forall vo em, snd (to_nifti st vo em) = Err e <-> snd (get_shape st) = Err e).
   { intros vo em. unfold to_nifti, get_data.
     destruct (get_shape st) as [st1 [sh|e1]] eqn:E; simpl; [|split; congruence].
     assert (Hagain : get_shape st1 = (st1, Ok sh)).
     { pose proof (get_shape_again st sh) as H. rewrite E in H. simpl in H. apply H. reflexivity. }
-    unfold get_affine. rewrite Hagain.
-    destruct (1 <? length (files_info st1) / nvols_of_shape sh); simpl;
-      match goal with |- context [if ?b then _ else _] => destruct b end; simpl; split; congruence. }
+    unfold get_affine. rewrite Hagain. simpl.
+    match goal with |- context [if ?b then _ else st1] => destruct b end; simpl; split; congruence. }
   split; [exact Hdata|]. split; [apply Haff|]. split; [exact Hnif|]. intros vo. apply Hnif.
 Qed.
 
